@@ -2,6 +2,9 @@
 K_NOTE = ("Trusted: Kani's MIR->goto translation and CBMC's bit-precise semantics; the stubs listed in the evidence "
           "(VmGreenThread::fail -> panic, location/trace -> empty, mpsc send -> ghost slot); the bound is one real step() per "
           "harness from the stated pre-state family; composition across steps is argued in DESIGN.md, not solver-checked.")
+S_NOTE = ("Trusted: the symbolic bytecode executor's instruction model (/verif/symex/svm.py), tied to the real VM by the K arm harnesses "
+          "(same arms, real step()) and by the concrete differential run of ./check C02; z3. The compiler itself is NOT trusted: it is run "
+          "for real and its output is what is executed symbolically. Counterexamples are replayed on the real VM through the driver.")
 CLAIMS = {
     "C15": {
         "engine": "K", "level": "model_checking",
@@ -24,6 +27,33 @@ CLAIMS["C38"] = {
             "with_capacity/alloc sequence and run under Miri; VIOLATION only if Miri reports UB or the replay's assertions fail.",
     "note": "Trusted: the summaries of 12 library calls listed in the evidence; nightly MIR == stable semantics for this function; Rust layout rules. "
             "Bounds: offset <= len < 2^48, size < 2^40, align <= 4096. Sequences are covered only through the invariant.",
+}
+CLAIMS["C24"] = {
+    "engine": "S", "level": "model_checking",
+    "technique": "symbolic execution of the compiled prelude (bytecode from the real compiler) with z3; each law refuted by the solver over all values",
+    "text": "The comparison, equality and hash code of the prelude is compiled by the real compiler; the symbolic executor extracts, for every "
+            "operator and type, the complete set of bytecode paths as formulas over symbolic arguments (64-bit ints, all float bit patterns, bools, "
+            "strings <= 2 bytes, tuples, arrays <= 2); z3 then has to refute the negation of each law (equivalence, negation, total order "
+            "consistent with ==, hash congruence). A model is a concrete (a, b, c) that is re-run on the real VM.",
+    "note": S_NOTE,
+}
+CLAIMS["C25"] = {
+    "engine": "S", "level": "model_checking",
+    "technique": "symbolic execution of the compiled sort code with z3 (all comparison outcomes as forks), order/stability refuted per path",
+    "text": "sort, sort_by and sort_by_key are executed symbolically on arrays of tagged elements with symbolic keys: every comparison outcome "
+            "is a fork, so for n <= 4 (5 thorough) all n! orders are covered for ALL key values, and for n = 33/34 (35/65/66 thorough) the 32-element "
+            "run boundary and the merge rounds are crossed with symbolic keys against a duplicate-heavy concrete background. Per path z3 refutes "
+            "'out of order or equal keys swapped or element altered'; permutation is checked by element identity.",
+    "note": S_NOTE + " Fully symbolic arrays beyond 5 elements are outside the bound (n! paths).",
+}
+CLAIMS["C27"] = {
+    "engine": "S", "level": "model_checking",
+    "technique": "symbolic execution of the compiled core/map and core/set with z3 against a dictionary model with symbolic key equality",
+    "text": "Operation sequences over a fresh map<int,int> / set<int> are compiled by the real compiler and executed symbolically with symbolic "
+            "64-bit keys and values (so i64::MIN, colliding bucket indices and duplicate keys are inside the space); for every bytecode path z3 "
+            "must refute that the observations differ from an association-list model with z3 key equality, or that the path ends in a runtime "
+            "error. Counterexamples are replayed on the real VM against a Python dict.",
+    "note": S_NOTE + " Sequences are enumerated (stated in the evidence); keys are ints only.",
 }
 NOT_APPLICABLE = {
     "C03": "quantifies over programs only; the failing behaviour is a panic inside the translator for a program shape. The program cannot be made symbolic through the parser/resolver/type checker (one hash-map insert = 1.7 M SAT variables, measured).",
